@@ -501,7 +501,7 @@ func callSSA(i *interpreter, caller *frame, callpos token.Pos, fn *ssa.Function,
 			}
 		}
 		if fn.Blocks == nil {
-			panic(pathAbort{"unsupported: no code for function " + name})
+			panic(pathAbort{"unsupported: no code for function " + name + " called from " + callerName(caller)})
 		}
 	}
 	if i.ps != nil {
